@@ -143,6 +143,6 @@ func TestC16(t *testing.T) {
 				failRapid(rt, r, caseOf("C16", "input", b, err), err)
 			}
 		})
-		e.feed(feedOpts{shortlexQ: 3, shortlexT: 4, sweepQ: 60, sweepT: 1200, sweepMaxLen: 48}, inputEval)
+		e.feed(feedOpts{counts: 1, shortlexQ: 3, shortlexT: 4, sweepQ: 60, sweepT: 1200, sweepMaxLen: 48}, inputEval)
 	})
 }
